@@ -17,6 +17,12 @@ FLOORS = {
               "tuples_valid": 500},
     "thorough": {"distinct_nontrivial": 20000, "K4_evaluations": 50000},
 }
+ANCHORS = [
+    "skchange.base.base_interval_scorer.BaseIntervalScorer.evaluate",
+    "skchange.utils.validation.cuts.check_cuts_array",
+    "skchange.anomaly_scores.from_cost.LocalAnomalyScore._check_cuts",
+    "skchange.utils.validation.data.as_2d_array",
+]
 LEVEL = "exploration"
 EXHAUSTIVE_SUBSPACES = {
     "quick": ["all integer tuples of the box [-2,n+2]^k, n in {3,4,5}, for each of the 19 "
@@ -69,13 +75,13 @@ def exec_case(ctx, r):
     scorer = build(spec)
     scorer.fit(X)
     tol = M.DataTol(X)
-    ctx.case()
     ctx.stat(f"scorer[{r['name']}]")
     label = f"{short(spec)} n={n} p={p}"
     I.drain()
 
     def judge(arg, cut_rows, how):
         """cut_rows: list of integer tuples the argument denotes (for the oracle)."""
+        ctx.case()  # one case = one evaluate() call judged by the validity/value oracle
         valid = all(SM.cut_is_valid(desc, c, n, p) for c in cut_rows)
         status, val = _call(scorer, arg)
         if not valid:
